@@ -233,3 +233,63 @@ def check_shared_trace_untouched(db, chk, rule: str) -> None:
                 chk.ob(rule, f"{mn}:{q} leaves the session's Trace object untouched", False, mod.loc(f), found=pm, accepted="deepcopy before replacing a rank's frame",
                        why="after this analysis every other analysis of the session (this property's included) sees the replaced frame", key=f"{mn}:{q}|shared-trace")
     chk.ob(rule, f"no analysis of the session edits the shared Trace object graph ({n} functions taking a Trace scanned)", n >= 20, "hta/analyzers", found=n, accepted=">= 20 functions scanned", nontrivial=False)
+
+
+def check_facade_binding(db, chk, rule: str, facade_q: str, callee_mod: str, callee_q: str, plural: Optional[dict] = None, returns=None) -> bool:
+    """The TraceAnalysis wrapper hands each of its arguments to the like-named parameter of the analyzer function - decided by EVALUATING the wrapper with the
+    analyzer function hooked (whatever way the call is written: positional, keyword, functools.partial, map over the ranks):
+    every hooked call receives self.t as the trace, the wrapper's own parameter value under each like-named parameter, and - for a per-rank analyzer - the
+    requested ranks one after the other.  Returns False when the wrapper could not be evaluated (the caller then reports 'not understood')."""
+    from ..core.interp import Interp
+    from ..core import terms as T
+    from ..core.values import Obj, PyTuple, to_term
+    ta = db.mod("hta.trace_analysis")
+    fac = ta.func(facade_q)
+    cm = db.mod(callee_mod)
+    cal = cm.func(callee_q)
+    where = ta.loc(fac)
+    plural = plural or {}
+    cparams = [p_ for p_ in H.param_names(cal) if p_ not in ("cls", "self")]
+    fparams = [p_ for p_ in H.param_names(fac) if p_ != "self"]
+    tobj = Obj("SESSION_TRACE")
+    short = callee_q.split(".")[-1]
+
+    def hook(I, name, pos, kw, node):
+        if name.split(".")[-1] == short and (name.endswith(callee_q) or name.split(".")[0] in (callee_q.split(".")[0], "cls")):
+            b = dict(zip(cparams, pos))
+            b.update({k: v for k, v in kw.items() if k in cparams})
+            I.log("facade-call", node, bound={k: v for k, v in b.items()})
+            return returns(I) if returns is not None else None
+        return NotImplemented
+    env = {"self": Obj("self", cls=(ta, "TraceAnalysis"), attrs={"t": tobj})}
+    for p_ in fparams:
+        env[p_] = [T.P("R0"), T.P("R1")] if p_ in plural.values() else T.P(p_)
+    I = Interp(db, call_hook=hook)
+    try:
+        runs = [r for r in I.explore(f"hta.trace_analysis:{facade_q}", lambda I: dict(env)) if r.raised is None]
+    except Exception as e:          # noqa
+        chk.ob(rule, f"{facade_q}: the wrapper is analysable", None, where, found=str(e)[:120])
+        return False
+    runs = [r for r in runs if any(e["kind"] == "facade-call" for e in r.events)]
+    if not runs or len(runs) > 16:
+        chk.ob(rule, f"{facade_q}: paths that reach {callee_q}", None, where, found=len(runs))
+        return False
+    for r in runs[:8]:
+        calls = [e["bound"] for e in r.events if e["kind"] == "facade-call"]
+        cond = (" [" + T.show(r.cond())[:50] + "]") if r.path else ""
+        for pn in cparams:
+            vals = [c.get(pn, "<default>") for c in calls]
+            if pn in ("t", "trace"):
+                ok = all(v is tobj for v in vals)
+                acc = "self.t"
+            elif pn in plural:
+                ok = [to_term(v) if v != "<default>" else None for v in vals] == [T.P("R0"), T.P("R1")]
+                acc = f"each of {plural[pn]} in turn"
+            elif pn in fparams:
+                ok = all(v != "<default>" and to_term(v) == T.P(pn) for v in vals)
+                acc = pn
+            else:
+                continue
+            chk.ob(rule, f"facade argument -> parameter {pn}{cond}", ok, where, found=[("self.t" if v is tobj else v if isinstance(v, str) else T.show(to_term(v))[:60]) for v in vals], accepted=acc,
+                   why="arguments bound to another parameter silently change threshold / rank / stream selection")
+    return True
